@@ -211,6 +211,15 @@ def same_labelled_value(a, b, what, loose=1.0, check_structure=True):
         return f"{what}: None vs value"
     if a is None:
         return None
+    ka, kb = _kind(a), _kind(b)
+    if ka in ("TN", "T", "scalar") and kb in ("TN", "T", "scalar") and ka != kb:
+        try:
+            (oa, va), (ob, vb) = _as_value(a), _as_value(b)
+        except Skip:
+            return None
+        if oa != ob:
+            return f"{what}: outer labels {oa} vs {ob}"
+        return _close(va, vb, what + " (value)", loose)
     if is_tensor(a) or is_tn(a):
         if not (is_tensor(b) or is_tn(b)):
             return f"{what}: {type(a).__name__} vs {type(b).__name__}"
@@ -489,6 +498,28 @@ def zoo(qtn, quick):
     @reg("Tensor-square")
     def _(rng, dt):
         return qtn.Tensor(rnd(rng, (2, 2, 2), dt), ("a", "e", "c"), tags=("X",))
+
+    @reg("Tensor-repeated")
+    def _(rng, dt):
+        return qtn.Tensor(rnd(rng, (2, 2, 3), dt), ("a", "a", "c"), tags=("X",))
+
+    @reg("TN-hyper")
+    def _(rng, dt):
+        # label h sits on three tensors
+        ts = [qtn.Tensor(rnd(rng, (2, 2), dt), ("a", "h"), tags=("A",)), qtn.Tensor(rnd(rng, (2, 3), dt), ("h", "c"), tags=("B",)),
+              qtn.Tensor(rnd(rng, (2, 2), dt), ("h", "d"), tags=("C",))]
+        return qtn.TensorNetwork(ts)
+
+    @reg("MPS-1site")
+    def _(rng, dt):
+        return qtn.MPS_rand_state(1, 1, dtype=dt, seed=int(rng.integers(1 << 30)))
+
+    @reg("MPS-exponent")
+    def _(rng, dt):
+        psi = qtn.MPS_rand_state(3, 2, dtype=dt, seed=int(rng.integers(1 << 30)))
+        psi.multiply_(37.0, spread_over=1)
+        psi.equalize_norms_(1.0)
+        return psi
 
     @reg("TN")
     def _(rng, dt):
@@ -935,7 +966,8 @@ def exercise(cx, qtn, rname, build, rec, dt, nperm, seed_base):
     for i, case in enumerate(cases):
         prng = np.random.default_rng([seed_base, i, sum(map(ord, rname + key))])
         params = dict(receiver=rname, cls=type(x).__name__, method=key, case=i, dtype=dt, alias=rec["alias"],
-                      mispaired_alias=bool(rec["alias"]) and not rec["alias_ok"], note=case.note)
+                      mispaired_alias=bool(rec["alias"]) and not rec["alias_ok"], note=case.note,
+                      receiver_has_exponent=bool(is_tn(x) and float(np.real(x.exponent)) != 0.0))
         freeze(case.args)
         freeze(case.kw)
         holder = {}
@@ -1191,7 +1223,7 @@ def _(x, rng, qtn, dt):
         G = rnd(rng, (da * db, da * db), dt)
         for mode in (False, True, "split", "reduce-split", "split-gate", "swap-split-gate", "auto-split-gate"):
             out.append(C(G, two, contract=mode).flag(gauge=mode not in (False, True), note=f"contract={mode}"))
-        out.append(C(G.reshape(da, db, da, db), two[::-1], contract=False).flag(note="reversed targets"))
+        out.append(C(G.reshape(da, db, da, db).transpose(1, 0, 3, 2), two[::-1], contract=False).flag(note="reversed targets"))
     return out
 
 
@@ -1462,7 +1494,7 @@ def _(x, rng, qtn, dt):
 @args_for("TensorNetworkGenVector.gate_simple", "TensorNetworkGenOperator.gate_simple")
 def _(x, rng, qtn, dt):
     sites = list(x.sites)
-    need(len(sites) >= 2 and hasattr(x, "site_ind"))
+    need(len(sites) >= 2)
     pair = None
     for a, b in itertools.combinations(sites, 2):
         ta, tb = x[x.site_tag(a)], x[x.site_tag(b)]
@@ -1470,7 +1502,8 @@ def _(x, rng, qtn, dt):
             pair = (a, b)
             break
     need(pair)
-    da, db = phys(x, pair[0]), phys(x, pair[1])
+    pd = (lambda s_: phys(x, s_)) if hasattr(x, "site_ind") else (lambda s_: size_of(x, x.upper_ind(s_)))
+    da, db = pd(pair[0]), pd(pair[1])
     G = rnd(rng, (da * db, da * db), dt)
     return [C(G, pair, {}).flag(gauge=True, loose=1e3, mut=(2,)),
             C(rnd(rng, (da, da), dt), (pair[0],), {}).flag(gauge=True, loose=1e3, mut=(2,))]
@@ -1784,6 +1817,7 @@ def binary_cases(qtn, rng, dt):
     a = T(rnd(rng, (2, 3, 2), dt), ("a", "e", "c"), tags="X")
     b = T(rnd(rng, (2, 2, 3), dt), ("c", "a", "e"), tags="Y")       # same labels, other storage order
     c = T(rnd(rng, (3, 4), dt), ("e", "f"), tags="Z")
+    g = T(rnd(rng, (2, 4), dt), ("e", "f"), tags="Z")                 # joins the networks' outer label e (size 2)
     one = T(rnd(rng, (1, 3), dt), ("a", "e"))                          # broadcasts over a
     s = 1.5 - (0.5j if "complex" in dt else 0.0)
 
@@ -1804,7 +1838,6 @@ def binary_cases(qtn, rng, dt):
         ("s-T", (a,), lambda x: 2.0 - x, lambda r, x: _close(val(r, abc), 2.0 - val(x, abc), "s-t")),
         ("T**2", (a,), lambda x: x ** 2, lambda r, x: _close(val(r, abc), val(x, abc) ** 2, "t**2")),
         ("-T", (a,), lambda x: -x, lambda r, x: _close(val(r, abc), -val(x, abc), "-t")),
-        ("abs(T)", (a,), lambda x: abs(x), None),
         ("T@T", (a, c), lambda x, y: x @ y, lambda r, x, y: _close(val(r, ("a", "c", "f")),
                                                                  np.einsum("aec,ef->acf", x.data, y.data), "t1@t2")),
         ("T@T scalar", (a, b), lambda x, y: x @ y, lambda r, x, y: _close(r, np.einsum("aec,cae->", x.data, y.data), "t1@t2")),
@@ -1818,13 +1851,22 @@ def binary_cases(qtn, rng, dt):
         tn = qtn.TensorNetwork(ts)
         tn.exponent = 0.25
         return tn
-    n1, n2 = net(), net()
-    n2.reindex_({"a": "a2", "e": "e2"})
+    n1, n2, n3 = net(), net(), net()
+    n2.reindex_({"a": "a2", "e": "e2", "s": "s2"})                     # inner labels x, y clash with n1's
+    n3.reindex_({"a": "a3", "e": "e3", "s": "s3", "x": "x3", "y": "y3"})  # nothing clashes
+    o1_, o2_, o3_ = ["a", "e", "s"], ["a2", "e2", "s2"], ["a3", "e3", "s3"]
+
+    def outer_prod(r, x, y, ox, oy, what):
+        return _close(dense_value(r, outer=ox + oy)[1], np.multiply.outer(dense_value(x, outer=ox)[1], dense_value(y, outer=oy)[1]), what)
+
     out += [
-        ("TN&TN", (n1, n2), lambda x, y: x & y, lambda r, x, y: _close(dense_value(r)[1], np.multiply.outer(dense_value(x)[1], dense_value(y)[1]).transpose(0, 3, 1, 4, 2, 5), "tn&tn")),
-        ("TN|TN", (n1, n2), lambda x, y: x | y, None),
-        ("TN&T", (n1, c), lambda x, y: x & y, None),
-        ("TN|T", (n1, c), lambda x, y: x | y, None),
+        ("TN&TN", (n1, n2), lambda x, y: x & y, lambda r, x, y: outer_prod(r, x, y, o1_, o2_, "tn&tn")),
+        ("TN|TN", (n1, n3), lambda x, y: x | y, lambda r, x, y: outer_prod(r, x, y, o1_, o3_, "tn|tn")),
+        # `|` views the operands' tensors and renames clashing INNER labels of the second operand in place (documented
+        # virtual combination): that operand must keep its labelled value (outer labels, tags, einsum value)
+        ("TN|TN inner-label clash", (n1, n2), lambda x, y: x | y, lambda r, x, y: outer_prod(r, x, y, o1_, o2_, "tn|tn"), "value"),
+        ("TN&T", (n1, g), lambda x, y: x & y, None),
+        ("TN|T", (n1, g), lambda x, y: x | y, None),
         ("TN^all", (n1,), lambda x: x ^ all, lambda r, x: same_labelled_value(r, x, "tn^all", check_structure=False)),
         ("TN^...", (n1,), lambda x: x ^ ..., lambda r, x: same_labelled_value(r, x, "tn^...", check_structure=False)),
         ("TN^tag", (n1,), lambda x: x ^ "B", lambda r, x: same_labelled_value(r, x, "tn^tag", check_structure=False)),
@@ -1864,7 +1906,7 @@ def binary_cases(qtn, rng, dt):
 def _grid(cx):
     if cx.quick:
         return ("float64", "complex128"), 2, (0,)
-    return ("float64", "complex128", "float32", "complex64"), 4, (0, 1, 2)
+    return ("float64", "complex128", "float32", "complex64"), 5, (0, 1, 2, 3)
 
 
 def _skip_rec(rec):
@@ -1876,7 +1918,7 @@ def _skip_rec(rec):
               "TensorNetworkGen/GenVector/GenOperator, MatrixProductState (open, cyclic, 2 sites d=3), MatrixProductOperator "
               "(open, cyclic), Dense1D, PEPS 2x3, PEPO 2x2, TensorNetwork2D 3x3, PEPS3D 2x2x2, TensorNetwork3D 2x2x2 receivers; "
               "1-10 argument cases per method from the table (options, reversed / distant sites, dims of 1, stored exponent, "
-              "left_inds); dtypes f64/c128 (thorough + f32/c64, 3 seeds); 2 (thorough 4) random axis permutations per case; "
+              "left_inds); dtypes f64/c128 (thorough + f32/c64, 4 seeds); 2 (thorough 5) random axis permutations per case; "
               "truncating / iterative routines compared by value with a loose tolerance, untruncated where the order of "
               "compressions could follow the storage order; reference value = numpy.einsum over all tensors (skipped above 3e7 flops)")
 def plain_pair_perm(cx):
@@ -1953,17 +1995,26 @@ def binary_ops(cx):
     for seed in seeds:
         for dt in dts:
             rng = np.random.default_rng([cx.seed, seed, sum(map(ord, dt))])
-            for name, operands, fn, ref in binary_cases(qtn, rng, dt):
+            for name, operands, fn, ref, *rest in binary_cases(qtn, rng, dt):
+                frame = rest[0] if rest else "exact"
                 if not cx.mine():
                     continue
                 freeze(operands)
                 prng = np.random.default_rng([cx.seed, seed, sum(map(ord, dt + name))])
                 perms = [freeze(permute_axes(operands, prng)) for _ in range(nperm + (0 if cx.quick else 1))]
 
-                def thunk(operands=operands, fn=fn, ref=ref, perms=perms):
-                    f0 = fingerprint(operands)
+                def thunk(operands=operands, fn=fn, ref=ref, perms=perms, frame=frame):
+                    def weak(ops):
+                        return [(sorted(outer_of(o)), sorted(tuple(sorted(map(str, t.tags))) for t in o.tensor_map.values()),
+                                 dense_value(o)[1]) for o in ops]
+                    f0 = fingerprint(operands) if frame == "exact" else weak(operands)
                     r = fn(*operands)
-                    e = fp_diff(f0, fingerprint(operands), "operands")
+                    if frame == "exact":
+                        e = fp_diff(f0, fingerprint(operands), "operands")
+                    else:
+                        e = None
+                        for (o0, t0, v0), (o1, t1, v1) in zip(f0, weak(operands)):
+                            e = e or (None if (o0, t0) == (o1, t1) else "operand: outer labels / tags changed") or _close(v0, v1, "operand value")
                     if e:
                         return e
                     if any(r is o for o in operands):
